@@ -139,36 +139,74 @@ def run(ctx):
         dom_ok = complete_node is not None and any(x[0] == "cond" and x[1] is complete_node for x in facts)
         ctx.ob("R-GUARD", cc, "completeness guard dominates the return", bool(dom_ok),
                "the construction is only reached for trace-preserving families" if dom_ok else "the return is reachable without the completeness test", rn)
-    # construction: every operator, every row, row r (not column)
+    # construction: every operator, every row, row r (not column, not conjugated) -- on normalised terms, so the list may be
+    # indexed (kraus_ops[i] for i in range(n)), iterated (k in kraus_ops) or come through a parallel list built from it
     found = False
+    SL = ("slice", ("c", None), ("c", None), ("c", None))
     for n in walk_no_nested(cc.node):
-        if isinstance(n, ast.Call) and m.resolve_call(cc, n).key in ("numpy.vstack", "numpy.stack", "numpy.array", "numpy.concatenate") and n.args and isinstance(n.args[0], ast.ListComp):
-            lc = n.args[0]
-            elt = lc.elt
-            gen = lc.generators[0]
-            if isinstance(elt, ast.Subscript) and isinstance(elt.value, ast.Subscript):
-                found = True
-                it = Nc(gen.iter)
-                want_it = ("call", "builtins.range", (("call", "builtins.len", (("n", "kraus_ops"),), ()),), ())
-                ok_it = it == want_it and not gen.ifs and isinstance(elt.value.slice, ast.Name) and elt.value.slice.id == gen.target.id
-                ctx.ob("R-ENUM", cc, "stack reads K_i for every i in range(len(kraus_ops))", ok_it,
-                       "all Kraus operators contribute a row" if ok_it else f"the stack iterates {show(it)}", n)
-                sl = elt.slice
-                row_ok = isinstance(sl, ast.Tuple) and len(sl.elts) == 2 and isinstance(sl.elts[0], ast.Name) and isinstance(sl.elts[1], ast.Slice) \
-                    and sl.elts[1].lower is None and sl.elts[1].upper is None
-                ctx.ob("R-ENUM", cc, "environment operator r takes ROW r of each K_i", row_ok,
-                       "K_i[r, :]" if row_ok else f"`{unparse(elt)}` does not select row r", n)
-                # the loop over r covers range(op_dim) with op_dim = K.shape[0]
-                for lp in walk_no_nested(cc.node):
-                    if isinstance(lp, ast.For) and any(x is n for x in ast.walk(lp)):
-                        itl = Nc(lp.iter)
-                        okl = itl[0] == "call" and itl[1] == "builtins.range" and len(itl[2]) == 1 and "shape" in repr(itl[2][0]) and "('c', 0)" in repr(itl[2][0])
-                        same = row_ok and isinstance(lp.target, ast.Name) and sl.elts[0].id == lp.target.id
-                        ctx.ob("R-ENUM", cc, "r ranges over all rows", bool(okl and same),
-                               "one environment operator per output row" if okl and same else f"row loop iterates {show(itl)}", lp)
-                stack_ok = m.resolve_call(cc, n).key == "numpy.vstack"
-                ctx.ob("R-ENUM", cc, "rows are stacked vertically (environment index = row index)", stack_ok or None,
-                       "vstack" if stack_ok else "stacking function changed", n, required=False)
+        if not (isinstance(n, ast.Call) and m.resolve_call(cc, n).key in ("numpy.vstack", "numpy.stack", "numpy.array", "numpy.concatenate", "numpy.row_stack") and n.args):
+            continue
+        t = Nc(n.args[0])
+        if t[0] != "comp" or len(t[3]) != 1 or len(t[2]) != 1:
+            continue
+        (tg, it, ifs), elt = t[3][0], t[2][0]
+        # which operator does the element read?
+        src_ok = None
+        if it == ("n", "kraus_ops") and not ifs:
+            K, src_ok = tg, True
+        elif it == ("call", "builtins.range", (("call", "builtins.len", (("n", "kraus_ops"),), ()),), ()) and not ifs:
+            K, src_ok = ("sub", ("n", "kraus_ops"), tg), True
+        else:
+            K = None
+        if K is None:
+            ctx.ob("R-ENUM", cc, "stack reads K_i for every i in range(len(kraus_ops))", False if "kraus_ops" in repr(it) else None,
+                   f"the stack iterates {show(it)[:80]}{' with a filter' if ifs else ''}: not every Kraus operator contributes", n, required="kraus_ops" in repr(it))
+            found = True
+            continue
+        found = True
+        ctx.ob("R-ENUM", cc, "stack reads K_i for every i in range(len(kraus_ops))", True, "all Kraus operators contribute a row", n)
+        # row selection
+        wrap = None
+        e = elt
+        if e[0] in ("conj", "dag", "T"):
+            wrap, e = e[0], e[1]
+        verdict, det, rterm = None, f"element {show(elt)[:80]} not recognised", None
+        if e[0] == "sub":
+            base, idx = e[1], e[2]
+            bw = None
+            if base[0] in ("dag", "T", "conj"):
+                bw, base = base[0], base[1]
+            if base == K:
+                if idx[0] == "tuple" and len(idx) == 3 and idx[2] == SL and idx[1] != SL:
+                    kind, rterm = "row", idx[1]
+                elif idx[0] == "tuple" and len(idx) == 3 and idx[1] == SL and idx[2] != SL:
+                    kind, rterm = "col", idx[2]
+                elif idx[0] != "tuple" and idx[0] != "slice":
+                    kind, rterm = "row", idx
+                else:
+                    kind = None
+                if kind is not None:
+                    # transposition of the base exchanges rows and columns; dag additionally conjugates
+                    conj = (bw in ("dag", "conj")) != (wrap in ("conj", "dag"))
+                    if bw in ("dag", "T"):
+                        kind = "col" if kind == "row" else "row"
+                    if kind == "row" and not conj:
+                        verdict, det = True, "K_i[r, :]"
+                    elif kind == "row":
+                        verdict, det = False, f"`{unparse(n.args[0])[:70]}` selects the complex conjugate of row r (a column of the adjoint): every complementary Kraus operator is conjugated, which changes Tr(K_i rho K_j^+) for complex operators"
+                    else:
+                        verdict, det = False, f"`{unparse(n.args[0])[:70]}` selects column r, not row r, of each K_i"
+        ctx.ob("R-ENUM", cc, "environment operator r takes ROW r of each K_i", verdict, det, n, required=verdict is not None)
+        for lp in walk_no_nested(cc.node):
+            if isinstance(lp, ast.For) and any(x is n for x in ast.walk(lp)):
+                itl = Nc(lp.iter)
+                okl = itl[0] == "call" and itl[1] == "builtins.range" and len(itl[2]) == 1 and "shape" in repr(itl[2][0]) and "('c', 0)" in repr(itl[2][0])
+                same = rterm is not None and isinstance(lp.target, ast.Name) and rterm == ("n", lp.target.id)
+                ctx.ob("R-ENUM", cc, "r ranges over all rows", bool(okl and same),
+                       "one environment operator per output row" if okl and same else f"row loop iterates {show(itl)}", lp)
+        stack_ok = m.resolve_call(cc, n).key in ("numpy.vstack", "numpy.row_stack")
+        ctx.ob("R-ENUM", cc, "rows are stacked vertically (environment index = row index)", stack_ok or None,
+               "vstack" if stack_ok else "stacking function changed", n, required=False)
     if not found:
         ctx.ob("R-ENUM", cc, "stack reads K_i for every i", None, "construction not recognised", required=False)
     r_effect_free(ctx, cc, ["kraus_ops"])
